@@ -205,26 +205,16 @@ ReadParameterType ==     \* _read_parameter_type
                 params' = IF j # 0 /\ params[j].ann = "none" THEN [params EXCEPT ![j].ann = "field", ![j].tf = offset] ELSE params
   /\ UNCHANGED <<input, pcand, desc, attrs, atypes, excs, ret, rtype>>
 
-\* _read_attribute: docstring.parent[name] under suppress(AttributeError, KeyError, TypeError): the empty name of
-\* `:var : v` raises ValueError when there is a parent
+\* _read_attribute: docstring.parent[name].annotation under suppress(AttributeError, KeyError, TypeError, ValueError,
+\* AliasResolutionError, CyclicAliasError): the look-up never raises
 ReadAttribute ==
   /\ pc = "main" /\ offset < N /\ IsField(L(offset)) /\ L(offset).fk = "var"
   /\ LET ln == L(offset) c == Consolidate(offset) name == NameOf(ln) IN
-     IF Invalid(ln, c.body) \/ Parts(ln) # 2 THEN Skip(c) /\ UNCHANGED <<attrs, pcand>>
-     ELSE LET tf == Lookup(atypes, name)
-              add == IF Has(attrs, name) THEN attrs
-                     ELSE Append(attrs, El(offset, c.body, name, IF tf # -1 THEN "field" ELSE SigAnn(offset), tf, "none"))
-          IN IF tf # -1 \/ (Mode = "struct" /\ sig[offset + 1].ann) THEN Skip(c) /\ pcand' = pcand /\ attrs' = add
-             \* the look-up docstring.parent[name].annotation: "" raises ValueError with any parent; a plain name that is an
-             \* unresolvable alias of the parent raises AliasResolutionError
-             ELSE \E cls \in {"none", "alias", "other"} :
-                    LET P == CASE cls = "none" -> {"none"} [] cls = "alias" -> {"aliasmod"} [] OTHER -> Parents \ {"none", "aliasmod"}
-                        o == CASE cls = "none" -> "" [] cls = "alias" -> (IF name = "" THEN "ValueError" ELSE "AliasResolutionError")
-                               [] OTHER -> IF name = "" THEN "ValueError" ELSE ""
-                    IN /\ pcand \cap P # {} /\ pcand' = pcand \cap P
-                       /\ IF o = "" THEN Skip(c) /\ attrs' = add
-                          ELSE /\ pc' = "crashed" /\ crash' = [exc |-> o, at |-> "attribute"] /\ UNCHANGED <<offset, attrs, sections>>
-  /\ UNCHANGED <<input, desc, params, ptypes, atypes, excs, ret, rtype>>
+     /\ Skip(c)
+     /\ IF Invalid(ln, c.body) \/ Parts(ln) # 2 \/ Has(attrs, name) THEN UNCHANGED attrs
+        ELSE LET tf == Lookup(atypes, name) IN
+             attrs' = Append(attrs, El(offset, c.body, name, IF tf # -1 THEN "field" ELSE SigAnn(offset), tf, "none"))
+  /\ UNCHANGED <<input, pcand, desc, params, ptypes, atypes, excs, ret, rtype>>
 
 ReadAttributeType ==     \* _read_attribute_type
   /\ pc = "main" /\ offset < N /\ IsField(L(offset)) /\ L(offset).fk = "vartype"
@@ -279,11 +269,8 @@ Spec == Init /\ [][Next]_vars
 Done == pc = "done"
 Crashed == pc = "crashed"
 Final == Done \/ Crashed
-KnownCrashSites == {<<"ValueError", "attribute">>, <<"AliasResolutionError", "attribute">>}
-NoCrash == ~Crashed
-NoValueErrorEmptyAttributeName == ~(Crashed /\ crash.exc = "ValueError")            \* violated in DocSphinx_defect.cfg
-NoAliasResolutionErrorInAttributes == ~(Crashed /\ crash.exc = "AliasResolutionError")    \* violated in DocSphinx_defect.cfg
-NoCrashBeyondKnown == Crashed => <<crash.exc, crash.at>> \in KnownCrashSites
+NoCrash == ~Crashed           \* no crash transition is left in this transcription ("defect" alphabet = regression domain)
+NoCrashBeyondKnown == NoCrash
 Progress == [][(pc = "main" /\ pc' = "main") => offset' > offset]_vars
 OffsetBounded == offset <= N
 Unmodified == [][UNCHANGED input /\ pcand' \subseteq pcand /\ pcand' # {}]_vars
